@@ -39,6 +39,7 @@ func init() {
 			ruleInterceptorSelection(c, "R15")
 			ruleSuffixSearchResumesAtNextByte(c, "R16")
 			ruleRegexpSuffixComparedBytewise(c, "R17")
+			ruleSegmentsAreBuiltFromParsedPieces(c, "R18")
 			rulePoolReleaseOnce(c, "R16")
 		},
 	})
@@ -912,6 +913,43 @@ func ruleParamWriters(c *Ctx, rule string) {
 	isBacktracker := scanners(c)
 	fam := matcherFamily(c)
 	writers := map[string]string{"types.(*Context).Set": "set", "types.(*Context).Delete": "delete", "types.(*Context).Reset": "reset"}
+	// and every other method of the context that writes the parameter map, classified by what it does to it
+	// (a new ResetParams() that clears it is a reset)
+	for changed := true; changed; {
+		changed = false
+		for _, m := range c.libFuncs() {
+			k := an.FuncKey(m)
+			if !strings.HasPrefix(k, "types.(*Context).") || writers[k] != "" {
+				continue
+			}
+			kind := ""
+			an.AllInstrs(m, func(in ssa.Instruction) {
+				if mu, ok := in.(*ssa.MapUpdate); ok && an.AP(mu.Map) == "recv.params" {
+					kind = "set"
+				}
+				if call := an.CallOf(in); call != nil {
+					if b, isB := call.Value.(*ssa.Builtin); isB && len(call.Args) >= 1 && an.AP(call.Args[0]) == "recv.params" {
+						switch b.Name() {
+						case "delete":
+							kind = "delete"
+						case "clear":
+							kind = "reset"
+						}
+					}
+					if w := writers[an.CalleeName(call)]; w != "" && len(call.Args) > 0 && an.AP(call.Args[0]) == "recv" && kind == "" {
+						kind = w
+					}
+				}
+				if base, field, _, ok := fieldStoreAny(in); ok && base == "recv" && field == "params" {
+					kind = "reset"
+				}
+			})
+			if kind != "" {
+				writers[k] = kind
+				changed = true
+			}
+		}
+	}
 	for _, f := range an.SortedFuncs(reach) {
 		an.AllInstrs(f, func(in ssa.Instruction) {
 			call := an.CallOf(in)
